@@ -84,6 +84,27 @@ TasmanianSparseGrid& TasmanianSparseGrid::operator=(TasmanianSparseGrid const &s
     return *this;
 }
 
+TasmanianSparseGrid::TasmanianSparseGrid(TasmanianSparseGrid &&source) :
+        acceleration(Utils::make_unique<AccelerationContext>()), using_dynamic_construction(false){
+    *this = std::move(source);
+}
+
+TasmanianSparseGrid& TasmanianSparseGrid::operator=(TasmanianSparseGrid &&source){
+    if (this == &source) return *this;
+    // the grid object keeps a pointer to the acceleration context it was made with, the two travel together;
+    // the source receives the (valid) context of this object and the state of an empty grid, a moved-from object can be reused
+    base = std::move(source.base);
+    std::swap(acceleration, source.acceleration);
+    domain_transform_a = std::move(source.domain_transform_a);
+    domain_transform_b = std::move(source.domain_transform_b);
+    conformal_asin_power = std::move(source.conformal_asin_power);
+    llimits = std::move(source.llimits);
+    using_dynamic_construction = source.using_dynamic_construction;
+    acc_domain = std::move(source.acc_domain);
+    source.clear();
+    return *this;
+}
+
 void TasmanianSparseGrid::clear(){
     base = std::unique_ptr<BaseCanonicalGrid>();
     domain_transform_a = std::vector<double>();
